@@ -7,7 +7,6 @@ here = os.path.dirname(os.path.abspath(__file__))
 # changes whose target check does not fire in the quick tier, and why (kept here, not in meta.json,
 # because ingest.sh rewrites meta.json)
 NOTES = {
-    "C05-C": "thorough tier only: needs about 3.5 million unknown chunks (C05 'many-chunks', 6.5 million)",
     "C08-E": "thorough tier only: needs a text meta whose declared length is the top of the 32-bit range; the unchanged library allocates the declared 4 GB per call (C08 'wrapping-text-lengths', confirmed against the change)",
     "C16-F": "thorough tier only: needs one track with more than 2^24 events (C16 'beyond-2^24-events', confirmed against the change)",
     "C14-A": "manifests only on streams outside C14's stated domain (aborted / oversized sysex); caught by C06, which quantifies over all byte streams",
